@@ -380,6 +380,12 @@ package ir
 //@   props C08 C13 C14
 //@   assigns nothing
 //@   ensures result == (len(i.LocalName) == 0)
+//@ # the identifier token of a named local is what enc.LocalName prints for the name (what asm.localIdentOfValue decodes)
+//@ func (LocalIdent).Ident
+//@   props C08 C11
+//@   requires i.LocalID >= 0
+//@   assigns nothing
+//@   ensures len(i.LocalName) > 0 ==> len(result) >= 2 && result[0] == '%' && enc.lexName(result[1:len(result)], i.LocalName)
 //@ func (GlobalIdent).ID
 //@   props C08 C13 C14
 //@   assigns nothing
